@@ -82,7 +82,9 @@ CLAIMED['C01'] = dict(
          'recorded under it - is a run of the operations ORemoveServer, OAddServer, ORestore whose side conditions '
          'follow from the call site, so the accounting invariant and every other invariant of a reachable state hold '
          'afterwards whatever the new capacity is and whichever recorded instances still fit) plus an oracle stage on '
-         'the real Master (views, sums, and the object\'s capacity against the server\'s declared record).',
+         'the real Master (views, sums, the object\'s capacity against the server\'s declared record, and the statement '
+         'on what the master published: the instances recorded under /placement/<server> fit the declared capacity '
+         'and none is recorded under two servers).',
     note=SCHED_NOTE + ' Hypotheses of C01_invariant (wf_ops): a new server has a fresh name, non-negative capacity of '
          'the cell\'s dimension and is not named by a stale instance; a new instance is unplaced with a non-negative '
          'demand of that dimension.',
@@ -204,7 +206,10 @@ CLAIMED['C05'] = dict(
          'C05_loader_restore (all invariants kept when the recorded identity is held by no other instance of the '
          'group and a group instance has or is given one), C05_forced_duplicate_refuted (the proviso is needed). The '
          'E-cell generator plays the operation (reload scenario and restart-style restores) against the real '
-         'Server.restore / Server.put / force_set_identity.'),
+         'Server.restore / Server.put / force_set_identity. Master-level stage (after a seeded change to '
+         'Loader.load_identity_groups was missed): E-master histories of identity-group events - also two in a row with '
+         'no cycle in between - and restarts on the real Master; the statement is evaluated on its cell and on the '
+         'identity fields it published after every cycle (oracle-only).'),
     note=SCHED_NOTE + ' Hypotheses of the all-histories theorems (wf_ops_all): a new server or instance has a fresh name and vectors of '
          'the cell dimension, a new instance record is not placed and holds no identity, configured counts are '
          'non-negative; a restore names an attached server and an instance that is on no server, a recorded identity '
